@@ -1,8 +1,8 @@
 #!/bin/bash
-# usage: tools/confirm_seed.sh <Cxx> <k>   -- confirm an independently produced breaking change
+# usage: tools/confirm_seed.sh <Cxx> <k> [<n>]  (stored as seeded/<Cxx>-<n>)   -- confirm an independently produced breaking change
 # in its scratch worktree /tmp/wt/<Cxx>: patch applies; demo passes pristine / fails patched;
 # test suite at baseline (468 passed, 25 errors) with the patch. On success copy to /verif/seeded/.
-p=$1; k=$2; wt=/tmp/wt/$p; sd=$wt/seed$k
+p=$1; k=$2; n=${3:-$2}; wt=${WT:-/tmp/wt}/$p; sd=$wt/seed$k
 cd $wt || exit 9
 git checkout -q -- . 
 /venv/bin/python seed$k/demo.py >/tmp/seedlog.$p.$k.pristine 2>&1; r0=$?
@@ -13,9 +13,9 @@ git checkout -q -- .
 find . -name __pycache__ -type d -prune -exec rm -rf {} + 2>/dev/null
 echo "$p seed$k: demo pristine rc=$r0 patched rc=$r1 tests: $t"
 if [ $r0 -eq 0 ] && [ $r1 -ne 0 ] && echo "$t" | grep -q "468 passed, 25 errors"; then
-  d=/verif/seeded/$p-$k; mkdir -p $d
+  d=/verif/seeded/$p-$n; mkdir -p $d
   cp $sd/patch.diff $sd/demo.py $d/; cp $sd/NOTES.md $d/NOTES.md 2>/dev/null
-  /venv/bin/python - "$p" "$k" "$d" "$t" <<'PY'
+  /venv/bin/python - "$p" "$n" "$d" "$t" <<'PY'
 import json,sys,re
 p,k,d,t=sys.argv[1:5]
 notes=open(d+'/NOTES.md').read() if __import__('os').path.exists(d+'/NOTES.md') else ''
